@@ -201,6 +201,28 @@ func runCase(env *vlib.Env, idx int, rep *vlib.Reporter) {
 			rep.Violationf(k, map[string]any{"case": desc, "reference": want.why, "validator_result": int(res)}, "validator says accept=%t, reference says accept=%t (%s)", got, want.accept, want.why)
 			continue
 		}
+		if !got && i%8 == 3 {
+			// database faults: whichever statement of the validator fails, the message stays refused
+			inc := node.Incarnation
+			rt0, _ := node.DBNode.DB.RoundTrips(inc)
+			node.Validate(ctx, g.topic, g.data)
+			rt1, _ := node.DBNode.DB.RoundTrips(inc)
+			for j := 0; j < rt1-rt0; j++ {
+				cur, _ := node.DBNode.DB.RoundTrips(inc)
+				node.DBNode.DB.SetFaultPlan(inc, &pgmem.FaultPlan{Faults: []pgmem.Fault{{At: cur + j, Kind: pgmem.FailStatement}}})
+				var fres pubsub.ValidationResult
+				if rep.Guard("panic:validate:"+g.kind, desc+fmt.Sprintf(" statement %d failing", j), func() { fres = node.Validate(ctx, g.topic, g.data) }) {
+					return
+				}
+				node.DBNode.DB.SetFaultPlan(inc, nil)
+				rep.Obs("validator_calls_with_a_failing_statement", 1)
+				if fres == pubsub.ValidationAccept {
+					rep.Violationf("accepts-invalid:"+g.kind+":db-fault:"+want.why, map[string]any{"case": desc, "failing_statement": j}, "an invalid message (%s) was accepted when statement %d of the validator failed", want.why, j)
+					return
+				}
+			}
+			writes = writes[:0]
+		}
 		if !got {
 			rep.Obs("rejected", 1)
 			// the full delivery path must leave no trace
@@ -499,6 +521,19 @@ func genMessage(r *vlib.Rng, w *world, n int, storedHint map[int][]byte) *genMsg
 		// whatever that value is
 		if v, ok := storedHint[g.entries[i].id]; ok && g.kind == "keys" && g.eon == "a" && r.Chance(1, 2) {
 			g.entries[i].kind, g.entries[i].bytes = "stored-value", v
+		}
+	}
+	// two genuine values attached to each other's identity: every single entry is wrong although
+	// sums, products and multisets of the values are those of a genuine message
+	if len(g.entries) >= 2 && len(g.entries) < 64 && r.Intn(12) == 0 {
+		for a := 0; a+1 < len(g.entries); a++ {
+			ea, eb := &g.entries[a], &g.entries[a+1]
+			if ea.kind == "genuine" && eb.kind == "genuine" && ea.id != eb.id {
+				ea.bytes, eb.bytes = eb.bytes, ea.bytes
+				ea.kind, eb.kind = "swapped", "swapped"
+				g.muts = append(g.muts, "entries-swapped")
+				break
+			}
 		}
 	}
 	var m p2pmsg.Message
